@@ -10,6 +10,7 @@ import (
 	"os"
 	"os/exec"
 	"path/filepath"
+	"regexp"
 	"sort"
 	"strconv"
 	"strings"
@@ -301,6 +302,8 @@ func main() {
 	replayDir := env("VERIF_REPLAYS", filepath.Join(verifDir, "replays"))
 	os.MkdirAll(replayDir, 0o755)
 
+	var crashMu sync.Mutex
+	var crashes []sim.ReplayRef
 	results := make([]*sim.WorkerResult, b.Workers)
 	logs := make([]string, b.Workers)
 	var wg sync.WaitGroup
@@ -322,6 +325,7 @@ func main() {
 				fmt.Sprintf("VERIF_MAX_SCENARIOS=%d", b.Scenarios), fmt.Sprintf("VERIF_MAX_SECONDS=%d", b.Seconds),
 				"VERIF_OUT="+outp, "VERIF_REPLAY_DIR="+replayDir, "VERIF_KNOWN="+filepath.Join(verifDir, "known_findings.json"),
 				"VERIF_SCRATCH="+filepath.Join(runDir, fmt.Sprintf("scratch%d", w)),
+				"VERIF_CURRENT_FILE="+filepath.Join(runDir, fmt.Sprintf("current%d.json", w)),
 				"GORACE=log_path="+filepath.Join(runDir, fmt.Sprintf("race%d", w))+" halt_on_error=0 exitcode=0",
 				"VERIF_RACE_LOG="+filepath.Join(runDir, fmt.Sprintf("race%d", w)),
 				fmt.Sprintf("VERIF_PART=%d", pi),
@@ -357,6 +361,29 @@ func main() {
 			}
 			if results[w] == nil && logs[w] == "" {
 				logs[w] = "worker wrote no result\n" + tail(buf.String(), 60)
+			}
+			// the process died while running a scenario of a crash-prone check: that scenario is
+			// the replay file, the crash is the violation
+			if (results[w] == nil || !results[w].Done) && replay != "" {
+				if sig := crashSignature(buf.String()); sig != "" {
+					crashMu.Lock()
+					crashes = append(crashes, sim.ReplayRef{Class: "crash", Key: "crash:" + sig, Detail: "worker process died while replaying:\n" + tail(buf.String(), 40), Path: replay})
+					crashMu.Unlock()
+				}
+			}
+			if (results[w] == nil || !results[w].Done) && replay == "" {
+				if cur, err := os.ReadFile(filepath.Join(runDir, fmt.Sprintf("current%d.json", w))); err == nil && len(cur) > 0 {
+					if sig := crashSignature(buf.String()); sig != "" {
+						rf := sim.ReplayFile{Property: c.ID, Seed: seed, Class: "crash", Key: "crash:" + sig, Detail: "worker process died while executing this scenario:\n" + tail(buf.String(), 40), Scenario: cur, Part: pi}
+						rb, _ := json.MarshalIndent(rf, "", " ")
+						rp := filepath.Join(replayDir, fmt.Sprintf("%s-s%d-w%d-crash.json", c.ID, seed, w))
+						if os.WriteFile(rp, rb, 0o644) == nil {
+							crashMu.Lock()
+							crashes = append(crashes, sim.ReplayRef{Class: "crash", Key: rf.Key, Detail: rf.Detail, Path: rp})
+							crashMu.Unlock()
+						}
+					}
+				}
 			}
 		}(w)
 	}
@@ -414,6 +441,7 @@ func main() {
 	if len(samples) > 4 {
 		samples = samples[:4]
 	}
+	viol = append(viol, crashes...)
 	wall := time.Since(start).Seconds()
 	cov["evaluations"] = execs
 	cov["scenarios"] = scen
@@ -629,4 +657,20 @@ func contains(l []string, x string) bool {
 		}
 	}
 	return false
+}
+
+var reCrash = regexp.MustCompile(`(?m)^(panic: [^\n]{0,80}|fatal error: [^\n]{0,80})`)
+var reRepoFrame = regexp.MustCompile(`(?m)^(github\.com/google/osv-scalibr[^\s(]*)`)
+
+// crashSignature extracts a stable signature from the output of a worker that died.
+func crashSignature(out string) string {
+	m := reCrash.FindString(out)
+	if m == "" {
+		return ""
+	}
+	m = regexp.MustCompile(`0x[0-9a-f]+`).ReplaceAllString(m, "0x?")
+	if f := reRepoFrame.FindString(out[strings.Index(out, m[:6]):]); f != "" {
+		m += " @ " + f
+	}
+	return m
 }
